@@ -42,9 +42,50 @@ _P1 = re.compile(r"^(?P<t>.+?)\.children_left\[(?P<i>\w+)\] == (TREE_LEAF|-1)$")
 _P2 = re.compile(r"^(?P<t>.+?)\.children_left\[(?P<i>\w+)\] <= (?P=i) and (?P=t)\.children_right\[(?P=i)\] <= (?P=i)$")
 
 
+_P1N = re.compile(r"^(?P<t>.+?)\.children_left\[(?P<i>\w+)\] != (TREE_LEAF|-1)$")
+
+
 def _leaf_pred_text(t: str):
-    m = _P1.match(t) or _P2.match(t)
+    # `children_left[i] != TREE_LEAF` is the same predicate read from the other side (the
+    # statements it guards handle the internal nodes)
+    m = _P1.match(t) or _P2.match(t) or _P1N.match(t)
     return (m.group("t"), m.group("i")) if m else None
+
+
+class _Elem(ast.NodeTransformer):
+    """element i of a prefix copy is element i of the array: A[:n].tolist()[i], list(A[:n])[i],
+    A.tolist()[i] -> A[i]; len(A[:n].tolist()) -> n"""
+
+    @staticmethod
+    def _strip(v):
+        changed = True
+        upper = None
+        while changed:
+            changed = False
+            if isinstance(v, ast.Call) and isinstance(v.func, ast.Attribute) and v.func.attr in ("tolist", "copy") and not v.args:
+                v, changed = v.func.value, True
+            elif isinstance(v, ast.Call) and isinstance(v.func, ast.Name) and v.func.id in ("list", "tuple") and len(v.args) == 1:
+                v, changed = v.args[0], True
+            elif isinstance(v, ast.Subscript) and isinstance(v.slice, ast.Slice) and v.slice.step is None and (v.slice.lower is None or (isinstance(v.slice.lower, ast.Constant) and v.slice.lower.value == 0)):
+                upper = v.slice.upper if v.slice.upper is not None else upper
+                v, changed = v.value, True
+        return v, upper
+
+    def visit_Subscript(self, n):
+        self.generic_visit(n)
+        if not isinstance(n.slice, (ast.Slice, ast.Tuple)):
+            v, _ = self._strip(n.value)
+            n.value = v
+        return n
+
+    def visit_Call(self, n):
+        self.generic_visit(n)
+        if isinstance(n.func, ast.Name) and n.func.id == "len" and len(n.args) == 1:
+            v, upper = self._strip(n.args[0])
+            if upper is not None:
+                return upper
+            n.args = [v]
+        return n
 
 
 def _norm_enumeration(repo, fi, target, it, tests, at):
@@ -89,13 +130,21 @@ def _norm_enumeration(repo, fi, target, it, tests, at):
                         return sub2.get(n.id, n)
 
                 x = R2().visit(x)
+        x = _Elem().visit(x)
         tt.append(ast.unparse(x))
+    try:
+        it_t = ast.unparse(_Elem().visit(ast.parse(it_t, mode="eval").body))
+    except SyntaxError:
+        pass
     return iv, it_t, tt
 
 
 def _site_ok(ck, fi, node, iv, it_t, tests, elt_ok=True):
     t = " and ".join(tests) if len(tests) > 1 else (tests[0] if tests else "")
     p = _leaf_pred_text(t)
+    if p is None and "__it__(" in t:
+        ck.unknown("C12.a", fi, node, f"leaf test {t[:120]!r}: the node it tests is reached through a local whose expansion this rule does not read back as the loop's node id")
+        return False
     if p is None:
         ck.violated("C12.a", fi, node, f"leaf test {t!r} is not one of the two confirmed leaf predicates (children_left[i] == TREE_LEAF, or both children <= i): internal nodes are listed as leaves or leaves are missed")
         return False
@@ -195,7 +244,10 @@ def check_a(ck, repo):
             if p.ret in (CONTINUE, BREAK):
                 continue
             st = {k: ast.unparse(v) for k, v in p.stores.items()}
-            leaf_skipped = any((t.endswith(".children_left[%s] == TREE_LEAF" % iv) or (t.startswith("TREE_LEAF == ") and t.endswith(".children_left[%s]" % iv))) and not pol for t, pol in p.conds)
+            leaf_skipped = any((t.endswith(".children_left[%s] == TREE_LEAF" % iv) or (t.startswith("TREE_LEAF == ") and t.endswith(".children_left[%s]" % iv))) and not pol for t, pol in p.conds) or any((t.endswith(".children_left[%s] != TREE_LEAF" % iv) or (t.startswith("TREE_LEAF != ") and t.endswith(".children_left[%s]" % iv))) and pol for t, pol in p.conds)
+            is_leaf_path = any((t.endswith(".children_left[%s] != TREE_LEAF" % iv) and not pol) or (t.endswith(".children_left[%s] == TREE_LEAF" % iv) and pol) or (t.startswith("TREE_LEAF == ") and t.endswith(".children_left[%s]" % iv) and pol) or (t.startswith("TREE_LEAF != ") and t.endswith(".children_left[%s]" % iv) and not pol) for t, pol in p.conds)
+            if is_leaf_path and not p.stores:
+                continue  # a leaf: nothing to record
             okp = ((all_nodes and leaf_skipped) or (internal_only and not p.conds)) and len(st) == 2 and any(k.endswith(f".children_left[{iv}]]") and v == iv for k, v in st.items()) and any(k.endswith(f".children_right[{iv}]]") and v == f"-{iv}" for k, v in st.items())
     ck.verdict(okp, "C12.a", tp, "parents[left] = i; parents[right] = -i", "both children of every internal node point to their parent (right child marked by the sign)", "tree_node_parents does not record both children of an internal node")
     # predict_leaves
